@@ -531,4 +531,342 @@ theorem C17_until_close (b0 : Bytes) (segs : List Bytes) :
   simp only [runBytes_eof_all, List.nil_append] at h
   simpa using h
 
+
+/-! ## Part 3 — one exchange (`send_request` + the caller's use of the payload) -/
+
+/-- the response as read off the segments: head, framing decision, what is left for the body -/
+structure Reading where
+  h : Head
+  f : Framing
+  rest0 : Bytes
+  rest : List Bytes
+
+def readHead (segs : List Bytes) : Option Reading :=
+  match headPhase [] segs with
+  | (.ok h rest0, _, rest) =>
+    match responseFraming h with
+    | some f => some ⟨h, f, rest0, rest⟩
+    | none => none
+  | _ => none
+
+/-- the only payload decoders a response head can produce -/
+def HeadKind (k : Kind) : Prop := k = .chunked .size 0 ∨ (∃ n, k = .length n) ∨ k = .eof
+
+theorem framing_kinds (h : Head) (f : Framing) (hf : responseFraming h = some f) :
+    f.ptype = .none ∨ (∃ k, f.ptype = .payload k ∧ HeadKind k) ∨ (∃ k, f.ptype = .stream k ∧ HeadKind k) := by
+  unfold responseFraming at hf
+  cases hh : hdrFold h.v11 {} h.headers with
+  | none => simp [hh] at hf
+  | some a =>
+    simp only [hh] at hf
+    -- the three-way result of `set_headers`
+    generalize hlen : (if a.chunked = true then some (Kind.chunked ChSt.size 0)
+        else if a.upgradeWs = true then none
+        else match a.cl with
+          | some 0 => none
+          | some n => some (Kind.length n)
+          | none => none) = len at hf
+    have hlk : ∀ k, len = some k → HeadKind k := by
+      intro k hk
+      subst hlen
+      split at hk
+      · simp at hk; subst hk; exact Or.inl rfl
+      · split at hk
+        · simp at hk
+        · split at hk
+          · simp at hk
+          · simp at hk; subst hk; exact Or.inr (Or.inl ⟨_, rfl⟩)
+          · simp at hk
+    cases len with
+    | some k =>
+      simp only [Option.some.injEq] at hf
+      subst hf
+      exact Or.inr (Or.inl ⟨k, rfl, hlk k rfl⟩)
+    | none =>
+      simp only [] at hf
+      split at hf
+      · simp at hf; subst hf; exact Or.inr (Or.inr ⟨.eof, rfl, Or.inr (Or.inr rfl)⟩)
+      · split at hf
+        · simp at hf; subst hf; exact Or.inr (Or.inl ⟨.eof, rfl, Or.inr (Or.inr rfl)⟩)
+        · simp at hf; subst hf; exact Or.inl rfl
+
+theorem headKind_wf (k : Kind) (h : HeadKind k) : WF k := by
+  rcases h with h | ⟨n, h⟩ | h <;> subst h <;> simp [WF]
+
+theorem bodyKind_head (o : ReqOpts) (h : Head) (f : Framing) (k : Kind)
+    (hf : responseFraming h = some f) (hk : bodyKind o f = some k) : HeadKind k := by
+  unfold bodyKind at hk
+  by_cases hhd : o.isHead = true
+  · simp [hhd] at hk
+  · simp only [hhd, Bool.false_eq_true, if_false] at hk
+    rcases framing_kinds h f hf with h0 | ⟨k', h1, h2⟩ | ⟨k', h1, h2⟩
+    · simp [h0] at hk
+    · simp [h1] at hk; subst hk; exact h2
+    · simp [h1] at hk; subst hk; exact h2
+
+
+/-- how the body stream ended, read off the byte automaton -/
+def bodyEndOf (k : Kind) (stream : Bytes) (closed : Bool) : BodyEnd :=
+  match (runBytes k stream []).st with
+  | .done => .complete
+  | .failed => .ioError
+  | .more => if closed then (if (runBytes k stream []).kind = .eof then .closeDelimited else .incomplete) else .pending
+
+theorem exchange_noBody (o : ReqOpts) (mode : Mode) (segs : List Bytes) (closed : Bool)
+    (h : Head) (rest0 buf : Bytes) (rest : List Bytes) (f : Framing)
+    (hh : headPhase [] segs = (.ok h rest0, buf, rest)) (hf : responseFraming h = some f)
+    (hk : bodyKind o f = none) :
+    (exchange o mode segs closed).released = codecKeepAlive o h f ∧
+    (∀ st bs, (exchange o mode segs closed).outcome = .body st bs → st = h.status ∧ bs = []) := by
+  unfold exchange
+  simp only [hh, hf, hk]
+  refine ⟨trivial, ?_⟩
+  intro st bs
+  cases mode with
+  | full => simp only [Outcome.body.injEq]; intro e; exact ⟨e.1.symm, e.2.symm⟩
+  | part n =>
+    cases n with
+    | zero => intro e; simp at e
+    | succ m => simp only [Outcome.body.injEq]; intro e; exact ⟨e.1.symm, e.2.symm⟩
+
+theorem exchange_body (o : ReqOpts) (mode : Mode) (segs : List Bytes) (closed : Bool)
+    (h : Head) (rest0 buf : Bytes) (rest : List Bytes) (f : Framing) (k : Kind)
+    (hh : headPhase [] segs = (.ok h rest0, buf, rest)) (hf : responseFraming h = some f)
+    (hk : bodyKind o f = some k) :
+    let out := (runBytes k (rest0 ++ flat rest) []).out
+    let fin := bodyEndOf k (rest0 ++ flat rest) closed
+    (exchange o mode segs closed).released =
+      (!earlyDrop mode out.length && decide (fin = .complete) && codecKeepAlive o h f) ∧
+    (∀ st bs, (exchange o mode segs closed).outcome = .body st bs →
+      st = h.status ∧ bs = out ∧ earlyDrop mode out.length = false ∧ (fin = .complete ∨ fin = .closeDelimited)) := by
+  have hwf := headKind_wf k (bodyKind_head o h f k hf hk)
+  have hcf := runBody_closed_form k hwf rest0 rest closed
+  simp only [] at hcf
+  obtain ⟨hd, hfin⟩ := hcf
+  have hfin' : (runBody k rest0 rest closed).fin = bodyEndOf k (rest0 ++ flat rest) closed := hfin
+  intro out fin
+  unfold exchange
+  simp only [hh, hf, hk, hd]
+  cases he : earlyDrop mode out.length with
+  | true =>
+    simp only [if_true, Bool.not_true, Bool.false_and, true_and]
+    intro st bs e; simp at e
+  | false =>
+    simp only [Bool.false_eq_true, if_false, Bool.not_false, Bool.true_and]
+    rw [hfin']
+    have hfe : bodyEndOf k (rest0 ++ flat rest) closed = fin := rfl
+    rw [hfe]
+    cases hfc : fin with
+    | complete =>
+      refine ⟨by simp, ?_⟩
+      intro st bs e
+      simp only [Outcome.body.injEq] at e
+      exact ⟨e.1.symm, e.2.symm, trivial, Or.inl rfl⟩
+    | closeDelimited =>
+      refine ⟨by simp, ?_⟩
+      intro st bs e
+      simp only [Outcome.body.injEq] at e
+      exact ⟨e.1.symm, e.2.symm, trivial, Or.inr rfl⟩
+    | incomplete => exact ⟨by simp, fun st bs e => by simp at e⟩
+    | ioError => exact ⟨by simp, fun st bs e => by simp at e⟩
+    | pending => exact ⟨by simp, fun st bs e => by simp at e⟩
+
+
+theorem bodyEndOf_complete (k : Kind) (s : Bytes) (closed : Bool) :
+    bodyEndOf k s closed = .complete ↔ (runBytes k s []).st = .done := by
+  unfold bodyEndOf
+  cases (runBytes k s []).st with
+  | done => simp
+  | failed => simp
+  | more =>
+    cases closed
+    · simp
+    · by_cases he : (runBytes k s []).kind = .eof <;> simp [he]
+
+theorem bodyEndOf_closeDelimited (k : Kind) (s : Bytes) (closed : Bool)
+    (h : bodyEndOf k s closed = .closeDelimited) :
+    k = .eof ∧ closed = true ∧ (runBytes k s []).st = .more := by
+  unfold bodyEndOf at h
+  cases hst : (runBytes k s []).st with
+  | done => simp [hst] at h
+  | failed => simp [hst] at h
+  | more =>
+    simp only [hst] at h
+    cases closed with
+    | false => simp at h
+    | true =>
+      by_cases he : (runBytes k s []).kind = .eof
+      · have hf := runBytes_fam k s [] (by rw [hst]; decide)
+        rw [he] at hf
+        refine ⟨?_, rfl, rfl⟩
+        cases k <;> simp [fam] at hf
+        rfl
+      · simp [he] at h
+
+/-- **C17_release_iff** — a connection goes back into the pool (`on_release(true)`) if and only if
+* the response head was complete and its framing valid,
+* the codec says keep-alive (request did not ask for close; response did not say close / upgrade;
+  an HTTP/1.0 response said keep-alive), and
+* the response has no payload, or the payload decoder produced its `Eof` item — the framed end of
+  the body was reached in the bytes received — and the caller polled that far (it did not drop
+  the response early).
+In every other case (head error, body error, early drop, close-delimited body, `Connection:
+close`) the io is dropped with the `H1Connection` and never reaches `available`. -/
+theorem C17_release_iff (o : ReqOpts) (mode : Mode) (segs : List Bytes) (closed : Bool) :
+    (exchange o mode segs closed).released = true ↔
+      ∃ rd, readHead segs = some rd ∧ codecKeepAlive o rd.h rd.f = true ∧
+        (bodyKind o rd.f = none ∨
+         ∃ k, bodyKind o rd.f = some k ∧ (runBytes k (rd.rest0 ++ flat rd.rest) []).st = .done ∧
+              earlyDrop mode (runBytes k (rd.rest0 ++ flat rd.rest) []).out.length = false) := by
+  generalize hp : headPhase [] segs = r
+  obtain ⟨hr, buf, rest⟩ := r
+  cases hr with
+  | needMore =>
+    have h1 : (exchange o mode segs closed).released = false := by
+      unfold exchange; simp only [hp]; split <;> (try split) <;> rfl
+    have h2 : readHead segs = none := by simp [readHead, hp]
+    simp [h1, h2]
+  | tooLarge =>
+    have h1 : (exchange o mode segs closed).released = false := by unfold exchange; simp only [hp]; rfl
+    have h2 : readHead segs = none := by simp [readHead, hp]
+    simp [h1, h2]
+  | bad =>
+    have h1 : (exchange o mode segs closed).released = false := by unfold exchange; simp only [hp]; rfl
+    have h2 : readHead segs = none := by simp [readHead, hp]
+    simp [h1, h2]
+  | ok h rest0 =>
+    cases hf : responseFraming h with
+    | none =>
+      have h1 : (exchange o mode segs closed).released = false := by unfold exchange; simp only [hp, hf]; rfl
+      have h2 : readHead segs = none := by simp [readHead, hp, hf]
+      simp [h1, h2]
+    | some f =>
+      have h2 : readHead segs = some ⟨h, f, rest0, rest⟩ := by simp [readHead, hp, hf]
+      cases hk : bodyKind o f with
+      | none =>
+        have h1 := (exchange_noBody o mode segs closed h rest0 buf rest f hp hf hk).1
+        rw [h1, h2]
+        constructor
+        · intro hka; exact ⟨_, rfl, hka, Or.inl hk⟩
+        · rintro ⟨rd, hrd, hka, _⟩
+          simp only [Option.some.injEq] at hrd
+          subst hrd; exact hka
+      | some k =>
+        have h1 := (exchange_body o mode segs closed h rest0 buf rest f k hp hf hk).1
+        rw [h1, h2]
+        constructor
+        · intro hall
+          simp only [Bool.and_eq_true, Bool.not_eq_eq_eq_not, Bool.not_true, decide_eq_true_eq] at hall
+          obtain ⟨⟨he, hc⟩, hka⟩ := hall
+          exact ⟨_, rfl, hka, Or.inr ⟨k, hk, (bodyEndOf_complete _ _ _).1 hc, he⟩⟩
+        · rintro ⟨rd, hrd, hka, hcase⟩
+          simp only [Option.some.injEq] at hrd
+          subst hrd
+          rcases hcase with hn | ⟨k', hk', hdone, he⟩
+          · simp [hk] at hn
+          · simp only [hk, Option.some.injEq] at hk'
+            subst hk'
+            simp only [Bool.and_eq_true, Bool.not_eq_eq_eq_not, Bool.not_true, decide_eq_true_eq]
+            exact ⟨⟨he, (bodyEndOf_complete _ _ _).2 hdone⟩, hka⟩
+
+/-- **C17_ok_body_is_framed_body** (`C17_complete_or_error` at the level of the whole exchange) —
+whenever the caller ends up with `Ok(body)`:
+* the response had no payload and `body` is empty, or
+* the payload decoder reached its framed end inside the bytes received and `body` is exactly
+  what it decoded up to there, or
+* the body is delimited by the end of the connection (HTTP/1.0 without length, 101), the peer
+  did close, and `body` is everything received.
+For Content-Length and chunked responses a short stream can therefore only surface as an error. -/
+theorem C17_ok_body_is_framed_body (o : ReqOpts) (mode : Mode) (segs : List Bytes) (closed : Bool)
+    (st : Nat) (bs : Bytes) (hok : (exchange o mode segs closed).outcome = .body st bs) :
+    ∃ rd, readHead segs = some rd ∧ st = rd.h.status ∧
+      ((bodyKind o rd.f = none ∧ bs = []) ∨
+       ∃ k, bodyKind o rd.f = some k ∧ bs = (runBytes k (rd.rest0 ++ flat rd.rest) []).out ∧
+         ((runBytes k (rd.rest0 ++ flat rd.rest) []).st = .done ∨ (k = .eof ∧ closed = true))) := by
+  generalize hp : headPhase [] segs = r at hok
+  obtain ⟨hr, buf, rest⟩ := r
+  cases hr with
+  | needMore =>
+    exfalso
+    unfold exchange at hok; simp only [hp] at hok
+    split at hok <;> (try split at hok) <;> simp [failed] at hok
+  | tooLarge => exfalso; unfold exchange at hok; simp [hp, failed] at hok
+  | bad => exfalso; unfold exchange at hok; simp [hp, failed] at hok
+  | ok h rest0 =>
+    cases hf : responseFraming h with
+    | none => exfalso; unfold exchange at hok; simp [hp, hf, failed] at hok
+    | some f =>
+      have h2 : readHead segs = some ⟨h, f, rest0, rest⟩ := by simp [readHead, hp, hf]
+      cases hk : bodyKind o f with
+      | none =>
+        have h1 := (exchange_noBody o mode segs closed h rest0 buf rest f hp hf hk).2 st bs hok
+        exact ⟨_, h2, h1.1, Or.inl ⟨hk, h1.2⟩⟩
+      | some k =>
+        have h1 := (exchange_body o mode segs closed h rest0 buf rest f k hp hf hk).2 st bs hok
+        obtain ⟨hst, hbs, _, hfin⟩ := h1
+        refine ⟨_, h2, hst, Or.inr ⟨k, hk, hbs, ?_⟩⟩
+        rcases hfin with hc | hc
+        · exact Or.inl ((bodyEndOf_complete _ _ _).1 hc)
+        · have := bodyEndOf_closeDelimited _ _ _ hc
+          exact Or.inr ⟨this.1, this.2.1⟩
+
+/-- **C17_no_leftover** — whichever way a request gets its connection, the socket's receive queue
+is empty at that moment: a pooled connection is handed out only if the 2-byte probe found
+nothing to read and no FIN (so unread bytes of an earlier exchange ⇒ `Tainted` ⇒ closed, never
+reused), and otherwise the authority's deque has been emptied and a brand-new socket is opened.
+Together with `exchange` starting from an empty `Framed` buffer (bytes read beyond the framed end
+are dropped with the old `Framed`, see `Exchange.discarded`) and `C17_chunked_exact` /
+`C17_length_exact` (nothing beyond the framed end is ever delivered), a later request never
+reads leftovers of an earlier one. -/
+theorem C17_no_leftover (cfg : Cfg) (now a : Nat) (p p' : Pool) (c : Conn) (reused : Bool)
+    (h : acquire cfg now a p = (p', c, reused)) :
+    c.sock = [] ∧ c.peerClosed = false ∧
+    (reused = false → c.id = p.nextId ∧ lookup a p'.avail = []) := by
+  cases reused with
+  | true =>
+    have := C17_reuse_only_clean cfg now a p c p' h
+    exact ⟨this.1, this.2.1, by simp⟩
+  | false =>
+    unfold acquire at h
+    generalize hp : popUsable cfg now (lookup a p.avail) = r at h
+    obtain ⟨r1, rest, closed⟩ := r
+    cases r1 with
+    | some d => simp at h
+    | none =>
+      simp only [Prod.mk.injEq] at h
+      obtain ⟨hp', hc, _⟩ := h
+      subst hc; subst hp'
+      have hrest := popUsable_none cfg now _ _ _ hp
+      subst hrest
+      exact ⟨rfl, rfl, fun _ => ⟨rfl, lookup_store_same _ _ _⟩⟩
+
+
+/-! ### the hypotheses above are inhabited: concrete exchanges (kernel-evaluated) -/
+
+/-- `HTTP/1.1 200 OK`, `content-length: 2`, body `ok` -/
+def sampleOk : Bytes := [72, 84, 84, 80, 47, 49, 46, 49, 32, 50, 48, 48, 32, 79, 75, 13, 10, 99, 111, 110, 116, 101, 110, 116, 45, 108, 101, 110, 103, 116, 104, 58, 32, 50, 13, 10, 13, 10, 111, 107]
+
+/-- the same head announcing 9 bytes, followed by 2 -/
+def sampleShort : Bytes := [72, 84, 84, 80, 47, 49, 46, 49, 32, 50, 48, 48, 32, 79, 75, 13, 10, 99, 111, 110, 116, 101, 110, 116, 45, 108, 101, 110, 103, 116, 104, 58, 32, 57, 13, 10, 13, 10, 111, 107]
+
+set_option maxRecDepth 100000 in
+example : (exchange ⟨false, false⟩ .full [sampleOk] false).released = true := by decide
+
+set_option maxRecDepth 100000 in
+example : ∃ st bs, (exchange ⟨false, false⟩ .full [sampleOk.take 20, sampleOk.drop 20] false).outcome = .body st bs :=
+  ⟨200, [111, 107], by decide⟩
+
+set_option maxRecDepth 100000 in
+/-- **witness_F8_repaired** — the F8 input (DESIGN §6: announced length not reached, then close):
+the model of the repaired code reports `Incomplete` and does not pool the connection. (Before the
+repair `decode_eof` ended the stream cleanly and the outcome was `Ok("ok")`.) -/
+theorem witness_F8_repaired :
+    (match (exchange ⟨false, false⟩ .full [sampleShort] true).outcome with
+     | .bodyErr 200 .incomplete => true
+     | _ => false) = true ∧
+    (exchange ⟨false, false⟩ .full [sampleShort] true).released = false := by decide
+
+set_option maxRecDepth 100000 in
+example : (exchange ⟨false, false⟩ (.part 0) [sampleOk] false).released = false := by decide
+
 end ActixModel.C17
